@@ -39,6 +39,9 @@ Definition unchanged (a b : obs) : bool := obs_eqb a (clear_err b).
 
 Definition mem_cert (c : cert) (l : list cert) : bool := existsb (cert_eqb c) l.
 Definition count (x : nat) (l : list nat) : nat := length (filter (Nat.eqb x) l).
+(** equality of lists of numbers as multisets *)
+Definition perm_eqb (a b : list nat) : bool :=
+  (length a =? length b) && forallb (fun x => count x a =? count x b) a.
 
 (** ** well-formed states *)
 Definition job_olds (js : list job) : list cert :=
@@ -109,7 +112,7 @@ Section Spec.
   (** 0: the name index and the served certificate agree with the cache contents:
       every cached certificate answers for all of its names *)
   Definition c_consistent (a : obs) : bool :=
-    forallb (fun n => list_nat_eqb (oidx a n) (index_ids n (o_cache a)) &&
+    forallb (fun n => perm_eqb (oidx a n) (index_ids n (o_cache a)) &&
                       opt_eqb Nat.eqb (osrv a n) (served n (o_cache a))) U.
 
   (** 1: the issuer is contacted successfully for n only when storage has no certificate for
@@ -164,7 +167,7 @@ Section Spec.
       | None =>
           if async then
             same_cache a b && same_store a b && same_counts a b && negb (o_err a) &&
-            list_nat_eqb (o_jobs a) (insert_by (fun x => x) (n * 6) (o_jobs b))
+            perm_eqb (o_jobs a) (n * 6 :: o_jobs b)
           else if locked_in b n then unchanged a b
           else
             same_jobs a b &&
@@ -219,8 +222,8 @@ Section Spec.
         negb (o_err a) &&
         forallb (fun m => (m =? n) || (opt_cert_eqb (ost a m) (ost b m) && (oiss a m =? oiss b m) &&
                                        (ofl a m =? ofl b m))) U &&
-        list_nat_eqb (filter (fun x => negb (code_name x =? n)) (o_jobs a))
-                     (filter (fun x => negb (code_name x =? n)) (o_jobs b)) &&
+        perm_eqb (filter (fun x => negb (code_name x =? n)) (o_jobs a))
+                 (filter (fun x => negb (code_name x =? n)) (o_jobs b)) &&
         (length (filter (fun x => code_name x =? n) (o_jobs a)) <=?
          length (filter (fun x => code_name x =? n) (o_jobs b))) &&
         (* a failed attempt changes nothing: the old certificate keeps being served *)
